@@ -37,6 +37,7 @@ func checkC07(r *Report, p *Program) {
 	objectMapContracts(r, p, "R07.10")
 	r07_tables(r, p)
 	r09_tables(r, p, "R07.12")
+	conditionTables(r, p, "R07.13")
 }
 
 // r07_9: which fields are revisioned. The default (all of spec) applies whenever the
@@ -279,7 +280,7 @@ func r07_3(r *Report, p *Program) {
 			}
 			// a nil return after having looked at a condition must have found it and matched status/reason where given
 			if pa.Has(true, func(a string) bool {
-				return strings.HasSuffix(a, "GetStatusCondition)(call(unstructured.Unstructured.UnstructuredContent)(p1), new<v1alpha1.ChildUpdateConditionCheck>.Type)#0 == nil)")
+				return strings.HasSuffix(a, "GetStatusCondition)(call(unstructured.Unstructured.UnstructuredContent)(p1), new<v1alpha1.StatusConditionCheck>.Type)#0 == nil)")
 			}) {
 				ok, why = false, "a missing condition passes the status check"
 			}
@@ -831,6 +832,7 @@ func r07_tables(r *Report, p *Program) {
 		for _, e := range pa.Effects {
 			effs = append(effs, effName(e))
 		}
+		sortStrings(effs) // the order of the bookkeeping calls within one iteration is immaterial
 		got := strings.Join(effs, ",")
 		want := ""
 		switch {
@@ -839,7 +841,7 @@ func r07_tables(r *Report, p *Program) {
 		case claimed == 1 && onLatest == 1:
 			want = ""
 		case claimed == 1 && onLatest == -1 && observed == 1 && mergeOK == 1 && noop == 1:
-			want = "add(latest),remove(other),claim:=latest"
+			want = "add(latest),claim:=latest,remove(other)"
 		case claimed == 1 && onLatest == -1:
 			want = ""
 		default:
@@ -944,4 +946,68 @@ func other(fld string) string {
 		return "Reason"
 	}
 	return "Status"
+}
+
+// conditionTables: the two scans of status.conditions (lookup by type; replace-or-append), both directions.
+func conditionTables(r *Report, p *Program, rule string) {
+	r.Rule(rule, "status.conditions scans: an item is the condition looked for ⇔ it is a map whose \"type\" is a string equal to the wanted type; GetStatusCondition returns it (never skips it), SetCondition replaces it in place and appends only when no item matched")
+	r.Floor(rule, 2)
+	for _, key := range []string{"dynamic/object.GetStatusCondition", "dynamic/object.SetCondition"} {
+		f := fn(r, p, rule, key)
+		if f == nil {
+			continue
+		}
+		loops := engine.RangeLoops(f)
+		if len(loops) != 1 || !strings.Contains(E(loops[0].X), "unstructured.NestedSlice)(p0") {
+			r.Check(rule, FK(f), p.Pos(f.Pos()), false, "", "expected one loop over the conditions read with NestedSlice")
+			continue
+		}
+		l := loops[0]
+		want := "p1"
+		if strings.HasSuffix(key, "SetCondition") {
+			want = "p1.Type"
+		}
+		isMap := func(a string) bool { return strings.HasPrefix(a, "assert<map[string]interface{}>(") && strings.HasSuffix(a, "#1") }
+		isStr := func(a string) bool {
+			return strings.HasPrefix(a, "assert<string>(") && strings.HasSuffix(a, `["type"])#1`)
+		}
+		isEq := func(a string) bool { return strings.Contains(a, `["type"])#0 == `+want+")") }
+		paths, err := engine.EnumPaths(f, engine.EnumOpts{Start: l.Body, Leave: func(b *ssa.BasicBlock) bool { return b == l.Header || b == l.Exit },
+			Effect: func(in ssa.Instruction) bool { return isCallTo(in, "unstructured.SetNestedField", "object.NewStatusCondition") }})
+		ok, why := err == nil, ""
+		if err != nil {
+			why = err.Error()
+		}
+		for _, pa := range paths {
+			m, s, e := val(pa, -1, isMap), val(pa, -1, isStr), val(pa, -1, isEq)
+			match := m == 1 && s == 1 && e == 1
+			_, isR := pa.End.(*ssa.Return)
+			switch {
+			case isR && !match:
+				ok, why = false, "an item that is not (a map with the wanted string type) ends the scan: "+pa.Cond()
+			case !isR && match:
+				ok, why = false, "the matching condition is skipped"
+			case !isR && !(m == -1 || s == -1 || e == -1):
+				ok, why = false, "an item is passed over without having been found different: "+pa.Cond()
+			case isR && len(pa.Effects) == 0:
+				ok, why = false, "the matching item is neither returned nor replaced"
+			}
+		}
+		// SetCondition: the append happens only when the scan found nothing (no conditions, or the loop ran out)
+		if strings.HasSuffix(key, "SetCondition") {
+			for _, cs := range callsTo(f, false, "builtin.append") {
+				w := engine.Query{Fn: f, Target: func(in ssa.Instruction) bool { return in == cs.Instr.(ssa.Instruction) },
+					CutEdge: func(b *ssa.BasicBlock, i int, lt *Lit) bool {
+						if b == l.Header && b.Succs[i] == l.Exit {
+							return true
+						}
+						return lt != nil && !lt.Pos && strings.HasSuffix(lt.Atom, "#1") && strings.HasPrefix(lt.Atom, "call(unstructured.NestedSlice)(p0")
+					}}.Find()
+				if w != nil {
+					ok, why = false, "the condition is appended without having looked for one of its type among existing conditions: every sync adds another copy"
+				}
+			}
+		}
+		r.Check(rule, FK(f), p.Pos(f.Pos()), ok, "match ⇔ map ∧ string type ∧ equal; replace or append-if-absent", why)
+	}
 }
